@@ -1749,6 +1749,13 @@ impl Analyzable for Program {
             policies = self.policies.analyze(Some(names));
         }
 
+        // the same holds for an asset definition: it is lowered from its copy in the scope
+        // wherever the asset is named
+        if !self.assets.is_empty() {
+            let names = Rc::new(self.definitions(parent.clone()));
+            let _ = self.assets.analyze(Some(names));
+        }
+
         self.scope = Some(Rc::new(self.definitions(parent)));
 
         // types are resolved first, while nothing else holds on to the program scope
